@@ -1,9 +1,11 @@
 package props
 
 import (
+	"bufio"
 	"bytes"
 	"encoding/json"
 	"fmt"
+	"io"
 	"strconv"
 	"strings"
 	"testing"
@@ -18,7 +20,7 @@ import (
 // C19 — ExpressionDump and Selector.String render the tree faithfully.
 
 const c19Rule = "parser-produced trees (from rendered own-ASTs, depth <= 6, JSON-Pointer and dotted selectors, quantifiers inside connectives, literals needing quoting) x " +
-	"indent strings (empty, blanks, tabs, multi-byte, and free strings over blanks, %, verbs, brackets, backslash, newline, NUL) x start levels 0-4; oracle: independent reference renderer written from the documented format, byte-equal output; " +
+	"indent strings (empty, blanks, tabs, multi-byte, and free strings over blanks, %, verbs, brackets, backslash, newline, NUL) x start levels 0-4; oracle: independent reference renderer written from the documented format, byte-equal output, into every kind of writer (bytes.Buffer, bufio.Writer of sizes 16-4096, strings.Builder, io.MultiWriter, a plain Write-only writer); " +
 	"dumping twice gives identical bytes; no panic; non-trivial = depth >= 3, a quantifier under a connective or a JSON-Pointer selector; distinct by (text, indent, level)"
 
 // indent strings: uniform, non-uniform, and pairs where one is a prefix of the other's
@@ -91,6 +93,14 @@ func refDump(sb *strings.Builder, e grammar.Expression, indent string, level int
 	}
 }
 
+// plainWriter implements nothing but Write and keeps a copy of what it is given.
+type plainWriter struct{ b []byte }
+
+func (p *plainWriter) Write(x []byte) (int, error) {
+	p.b = append(p.b, x...)
+	return len(x), nil
+}
+
 // failingWriter rejects every write (a closed pipe, a full disk).
 type failingWriter struct{}
 
@@ -135,6 +145,26 @@ func c19Check(t failer, c *c19Case) grammar.Expression {
 	refDump(&want, ast, c.Indent, c.Level)
 	if d1 != want.String() {
 		violation(t, "C19", "TestC19_Dump", c, "dump of %s (indent %q, level %d) differs from the documented rendering\n got:\n%s\n want:\n%s", c.TextQ, c.Indent, c.Level, d1, want.String())
+	}
+	// the rendering does not depend on what kind of writer receives it: buffered writers of several sizes (flushed
+	// afterwards), a strings.Builder, a fan-out writer, a plain writer that only implements Write
+	for _, sz := range []int{16, 17, 64, 4096} {
+		var under bytes.Buffer
+		bw := bufio.NewWriterSize(&under, sz)
+		ast.ExpressionDump(bw, c.Indent, c.Level)
+		bw.Flush()
+		if under.String() != want.String() {
+			violation(t, "C19", "TestC19_Dump", c, "dump of %s into a bufio.Writer of size %d (indent %q, level %d) differs from the documented rendering\n got:\n%s\n want:\n%s", c.TextQ, sz, c.Indent, c.Level, under.String(), want.String())
+		}
+	}
+	var sb strings.Builder
+	var b1, b2 bytes.Buffer
+	var pw plainWriter
+	ast.ExpressionDump(&sb, c.Indent, c.Level)
+	ast.ExpressionDump(io.MultiWriter(&b1, &b2), c.Indent, c.Level)
+	ast.ExpressionDump(&pw, c.Indent, c.Level)
+	if sb.String() != want.String() || b1.String() != want.String() || b2.String() != want.String() || string(pw.b) != want.String() {
+		violation(t, "C19", "TestC19_Dump", c, "dump of %s (indent %q, level %d) depends on the writer: strings.Builder %q, MultiWriter %q / %q, plain writer %q, want %q", c.TextQ, c.Indent, c.Level, sb.String(), b1.String(), b2.String(), string(pw.b), want.String())
 	}
 	if d2 := dump(); d2 != d1 {
 		violation(t, "C19", "TestC19_Dump", c, "dumping the same tree twice gives different bytes")
